@@ -11,6 +11,7 @@ import (
 	"github.com/mimecast/dtail/internal/lcontext"
 	"github.com/mimecast/dtail/internal/omode"
 	user "github.com/mimecast/dtail/internal/user/server"
+	"github.com/mimecast/dtail/internal/vhook"
 )
 
 // ServerHandler implements the Reader and Writer interfaces to handle
@@ -59,7 +60,9 @@ func (h *ServerHandler) handleUserCommand(ctx context.Context, ltx lcontext.LCon
 
 	dlog.Server.Debug(h.user, "Handling user command", argc, args)
 	h.incrementActiveCommands()
+	vhook.Point("srv.cmd.received")
 	commandFinished := func() {
+		vhook.Point("srv.cmd.finished")
 		if h.decrementActiveCommands() == 0 {
 			h.shutdown()
 		}
